@@ -366,9 +366,8 @@ class _ListAsDict:
 # ------------------------------------------------------------------------------------------------ numbers
 def to_fp(ex, a):
     """i32 -> f32, round to nearest even"""
-    if isinstance(a, int):
-        return z3.fpToFP(z3.RNE(), z3.RealVal(a), z3.Float32())
-    return z3.fpToFP(z3.RNE(), z3.ToReal(a), z3.Float32())
+    from .core import i32_to_f32
+    return i32_to_f32(a)
 
 
 def install(ex):
@@ -547,6 +546,24 @@ def install(ex):
                     yield z3.If(a < 0, -a, a)
         else:
             yield z3.If(a == -2**31, a, z3.If(a < 0, -a, a))
+
+    @model(r"^<&?(i32|u32|usize|i64|u64) as (Add|Sub|Mul)(<&?\\w+>)?>::(add|sub|mul)$", "std forwarding impls of + - * on (&)integers: overflow = panic with overflow checks (rustc_inherit_overflow_checks), wrap without")
+    def ref_arith(ex, callee, args, rt):
+        a = ex.deref(args[0])
+        b = ex.deref(args[1])
+        op = callee.rsplit("::", 1)[1]
+        ty = re.match(r"^<&?(\w+) as", callee).group(1)
+        lo, hi = INT_RANGES[ty]
+        r = {"add": a + b, "sub": a - b, "mul": a * b}[op]
+        if getattr(ex, "overflow_checks", True):
+            ovf = z3.Or(r < lo, r > hi)
+            for i in ex.branches([ovf, z3.Not(ovf)]):
+                if i == 0:
+                    ex.panic("attempt to %s with overflow" % {"add": "add", "sub": "subtract", "mul": "multiply"}[op], callee)
+                else:
+                    yield r
+        else:
+            yield wrap(r, lo, hi)
 
     @model(r"^<(i32|u32|usize|i64|u64|u8|char|isize) as PartialOrd>::partial_cmp$", "PartialOrd::partial_cmp on primitive integers/char")
     def prim_partial_cmp(ex, callee, args, rt):
